@@ -251,24 +251,30 @@ func (t *Task) Tag(tagName string) string {
 // Execute executes the task (the shell command or go function in CustomExecute)
 func (t *Task) Execute() {
 	defer close(t.Done)
+	vhookTask("exec.start", t)
 
 	// Do some sanity checks
 	if t.tempDirsExist() {
 		t.Failf("Existing temp folders found, so existing. Clean up temporary folders (starting with %s) before restarting the workflow!", tempDirPrefix)
 	}
 
+	vhookTask("exec.tmpchecked", t)
 	if t.anyOutputsExist() {
+		vhookTask("exec.skip", t)
 		t.Done <- 1
 		return
 	}
 
 	// Execute task
 	t.workflow.IncConcurrentTasks(t.cores) // Will block if max concurrent tasks is reached
+	vhookTask("exec.acquired", t)
 	err := t.createDirs()                  // Create output directories needed for any outputs
 	if err != nil {
 		t.Failf("Could not create directories: %v", err)
 	}
+	vhookTask("exec.mkdirs", t)
 	startTime := time.Now()
+	vhookTask("exec.cmd.start", t)
 	if t.CustomExecute != nil {
 		outputsStr := ""
 		for oipName, oip := range t.OutIPs {
@@ -282,17 +288,22 @@ func (t *Task) Execute() {
 		t.executeCommand(t.Command)
 		t.Auditf("Finished: %s", t.Command)
 	}
+	vhookTask("exec.cmd.end", t)
 	finishTime := time.Now()
 	t.writeAuditLogs(startTime, finishTime)
+	vhookTask("exec.audit", t)
 
 	t.ensureAllOutputsExist()
+	vhookTask("exec.ensured", t)
 	finErr := t.finalizePaths()
 	if finErr != nil {
 		t.Fail(finErr)
 	}
 
+	vhookTask("exec.finalized", t)
 	t.workflow.DecConcurrentTasks(t.cores)
 
+	vhookTask("exec.released", t)
 	t.Done <- 1
 }
 
@@ -435,6 +446,7 @@ func FinalizePaths(tempExecDir string, ips ...*FileIP) error {
 			if renameErr != nil {
 				return errors.New(fmt.Sprintf("Could not rename out-IP file %s to %s: %s", tempPath, finPath, renameErr))
 			}
+			vhook("fin.renamed", tempExecDir, finPath)
 		}
 	}
 	// For remaining paths in temporary execution dir, just move out of it
@@ -455,6 +467,7 @@ func FinalizePaths(tempExecDir string, ips ...*FileIP) error {
 			if renameErr != nil {
 				return errors.New(fmt.Sprintf("Could not rename remaining file %s to %s: %s", tempPath, finPath, renameErr))
 			}
+			vhook("fin.extra", tempExecDir, finPath)
 		}
 		return err
 	})
@@ -463,10 +476,12 @@ func FinalizePaths(tempExecDir string, ips ...*FileIP) error {
 	}
 	// Remove temporary execution dir (but not for absolute paths, or current dir)
 	if tempExecDir != "" && tempExecDir != "." && tempExecDir[0] != '/' {
+		vhook("fin.rmtmp.before", tempExecDir)
 		remErr := os.RemoveAll(tempExecDir)
 		if remErr != nil {
 			return errors.New(fmt.Sprintf("Could not remove temp dir: %s: %s", tempExecDir, remErr))
 		}
+		vhook("fin.rmtmp.after", tempExecDir)
 	}
 	return nil
 }
